@@ -917,6 +917,10 @@ def iter_value(self, v, st, node):
         o = _heap(st, v)
         st.assume(*wf_set(o["keys"], o["nkeys"], o["kseq"], o["kidx"]))
         return SeqIter(o["nkeys"], lambda k: o["kseq"][k])
+    if isinstance(v, Ref):
+        q = self.method_contract(_heap(st, v)["$cls"], "__iter__")
+        if q is not None:
+            return self.generator_iter(q, node, st, argvals=[v])
     s = set_of(self, st, v)
     if s is not None:
         self.used_models.add(TRUSTED_SC)
@@ -1343,3 +1347,24 @@ def rec_attr_model(self, e, base, st, spec):
 
 
 Engine.ATTR_MODELS.append(rec_attr_model)
+
+
+def havoc_heap(self, st, spec):
+    """loop head: forget the contents of the heap objects the loop may modify (LoopSpec.modifies names them)"""
+    names = [m for m in spec.modifies if m.split(".")[0] in st.env and isinstance(st.env[m.split(".")[0]], (Ref, Opt))]
+    if not names:
+        return
+    for (oid, fld) in modifies_set(self, names, st.env, st.heap):
+        o = st.heap[oid]
+        for f in list(o):
+            if f == "$cls" or (fld != "*" and f != fld):
+                continue
+            v = o[f]
+            if isinstance(v, (Ref, PyConst, NoneV, Func)):
+                continue
+            nv = V.fresh_like(v, f)
+            o[f] = nv
+            st.assume(*self.type_facts(nv))
+
+
+Engine.havoc_heap = havoc_heap
